@@ -47,7 +47,7 @@ func init() {
 	}})
 }
 
-var p2FixedScenarios = []string{"rmdir", "zero-pivot-255", "zero-pivot-255-b", "insert-at-boundary", "swap-files", "append-garbage", "lost-trailing-zeros", "k0-no-volumes", "damage-no-volumes", "periodic-J", "blocks-40000", "copy-survives"}
+var p2FixedScenarios = []string{"rmdir", "zero-pivot-255", "zero-pivot-255-b", "insert-at-boundary", "swap-files", "append-garbage", "lost-trailing-zeros", "k0-no-volumes", "damage-no-volumes", "periodic-J", "blocks-40000", "copy-survives", "files-300"}
 
 func p2Cases(id, tier string, seed int64, n int) []core.Case {
 	var cs []core.Case
@@ -189,6 +189,16 @@ func fixedSet(name string) (scen.Set, func(*scen.State, *rand.Rand) []scen.Op, s
 			{Name: "c.bin", Data: append([]byte(nil), two.Files[0].Data...)},
 		}}
 		return s, func(st *scen.State, r *rand.Rand) []scen.Op { return []scen.Op{{Kind: "delete", A: 0}} }, "none"
+	case "files-300":
+		// more protected files than fit one byte: 300 small files in a few
+		// directories, three of them damaged or deleted
+		s := scen.Set{SliceSize: 8, Blocks: 6, Content: "random"}
+		for i := 0; i < 300; i++ {
+			s.Files = append(s.Files, scen.File{Name: fmt.Sprintf("d%d/f%03d.bin", i%7, i), Data: scen.GenData(rng, "random", 3+i%14, 8)})
+		}
+		return s, func(st *scen.State, r *rand.Rand) []scen.Op {
+			return []scen.Op{{Kind: "delete", A: 17}, {Kind: "overwrite", A: 256, Pos: 1, G: []byte{0x33}}, {Kind: "delete", A: 299}}
+		}, "keep"
 	case "rmdir":
 		s := scen.Set{SliceSize: 8, Blocks: 6, Content: "random", Files: []scen.File{
 			{Name: "a.bin", Data: scen.GenData(rng, "random", 24, 8)},
